@@ -497,6 +497,9 @@ def main():
         mname = "M_" + "".join(c if c.isalnum() else "_" for c in pid)
         mlines = ["Definition %s : bmodel := %s." % (mname, g_model(model, names))] if ok_m else []
         for lang, step in zip(LANGS, resp["steps"]):
+            if "error" in step:
+                verdicts[(pid, lang, "*")] = {"verdict": "GeneratorRefuses", "why": step["error"]}
+                continue
             if "panic" in step:
                 verdicts[(pid, lang, "*")] = {"verdict": "GeneratorPanic", "why": step["panic"], "frames": step.get("frames")}
                 deviate(lang, "panic: " + step["panic"], pid, "*")
